@@ -733,7 +733,7 @@ def client_main(st, script, strings, barrier, conn, pickled=False):
         T = Tokens(strings)
         own, hist = [], []
         try:
-            barrier.wait(30)
+            barrier.wait(60)
         except Exception:
             pass
         for cop in script:
@@ -782,8 +782,8 @@ def check_concurrent(case):
                 pipes.append(a)
             hists = []
             for a in pipes:
-                if not a.poll(90):
-                    return dict(res, ok=False, clause="client_timeout", detail="a client did not answer within 90 s")
+                if not a.poll(600):  # watchdog only; a healthy case needs seconds
+                    return dict(res, ok=False, clause="client_timeout", detail="a client did not answer within 600 s")
                 kind, payload = a.recv()
                 if kind != "ok":
                     return dict(res, ok=False, clause="client_exception:" + payload["exc"], sig=dict(exc=payload["exc"], op=payload["op"]), detail=payload)
@@ -991,10 +991,10 @@ def gen_null(rng, tier):
 def streams(tier):
     th = tier == "thorough"
     return [
-        Stream("atomicity_certificate", gen_certificate, check_certificate, None, parallel=False, timeout=300),
-        Stream("exhaustive", gen_exhaustive(5 if th else 4, 12000 if th else 1000), check_exhaustive, shrink_alpha, timeout=600),
-        Stream("random_histories", gen_random(8000 if th else 1200, 200 if th else 60), check_history, shrink_ops, timeout=120),
+        Stream("atomicity_certificate", gen_certificate, check_certificate, None, parallel=False, timeout=900),
+        Stream("exhaustive", gen_exhaustive(5 if th else 4, 8000 if th else 600), check_exhaustive, shrink_alpha, timeout=600),
+        Stream("random_histories", gen_random(5000 if th else 800, 200 if th else 60), check_history, shrink_ops, timeout=120),
         Stream("reserved_search_keys", gen_random(1500 if th else 200, 40, reserved=True), check_history, shrink_ops, timeout=120),
-        Stream("concurrent_clients", gen_concurrent(64 if th else 16, 600 if th else 300, 8, 8 if th else 2), check_concurrent, shrink_concurrent, timeout=200),
+        Stream("concurrent_clients", gen_concurrent(64 if th else 16, 400 if th else 300, 8, 8 if th else 2), check_concurrent, shrink_concurrent, timeout=900),
         Stream("null_storage", gen_null, check_null, None, timeout=30),
     ]
